@@ -149,5 +149,37 @@ fn main() {
             other => println!("C18-REPLAY MISMATCH case=candidates after a completed / pending option {words:?}: got {other:?}, expected {want:?}"),
         }
     }
+    // the level reached follows the parser: a word that is an option's value, a further value of a multi-value
+    // positional, or comes after `--` is not a subcommand
+    let cli3 = || {
+        Command::new("prog")
+            .arg(Arg::new("opt").long("opt").action(ArgAction::Set))
+            .arg(Arg::new("verbose").long("verbose").action(ArgAction::SetTrue))
+            .arg(Arg::new("files").num_args(1..))
+            .subcommand(Command::new("build").arg(Arg::new("release").long("release").action(ArgAction::SetTrue)))
+    };
+    for (words, want) in [
+        (vec!["--opt", "build", "--v"], vec!["--verbose"]),
+        (vec!["--opt", "build", "--r"], vec![]),
+        (vec!["x", "build", "--r"], vec![]),
+        (vec!["build", "--r"], vec!["--release"]),
+        (vec!["--verbose", "build", "--r"], vec!["--release"]),
+    ] {
+        n += 1;
+        let args: Vec<OsString> = std::iter::once("prog").chain(words.iter().copied()).map(OsString::from).collect();
+        let idx = args.len() - 1;
+        let got = std::panic::catch_unwind(move || {
+            let mut cmd = cli3();
+            let mut v: Vec<String> = clap_complete::engine::complete(&mut cmd, args, idx, None)
+                .map(|c| c.into_iter().map(|c| c.get_value().to_string_lossy().into_owned()).collect())
+                .unwrap_or_default();
+            v.sort();
+            v
+        });
+        match got {
+            Ok(v) if v == want => {}
+            other => println!("C18-REPLAY MISMATCH case=level reached by {words:?}: candidates {:?}, expected {want:?}", other.ok()),
+        }
+    }
     println!("C18-REPLAY DONE {n} cases");
 }
